@@ -360,7 +360,7 @@ func c3genAnalytic(r *RNG) *c3ajob {
 	for c := 0; c < k; c++ {
 		agg := aggs[r.Intn(len(aggs))]
 		call := c3call{agg: agg, param: "-", arg: c3genArg(r, r.Intn(3) == 0)}
-		if r.Intn(4) > 0 { // mostly the bare column / the bare path: an arithmetic argument meets finding F59
+		if r.Intn(4) > 0 { // mostly the bare column / the bare path: an arithmetic argument meets finding F60
 			call.arg = c3arg{nested: call.arg.nested, op: "id", den: 1}
 		}
 		if agg == "count_star" {
